@@ -201,6 +201,28 @@ func (Prop) Gen(seed int64, tier string) *harness.Case {
 		}
 		w.UY = true
 	}
+	if !readMostly && r.Intn(10) == 0 {
+		// a scope that was large and is being emptied while another client keeps setting and reading one of the
+		// survivors: what table maintenance triggered by deletions (shrinking, rebuilding) has to survive
+		w.Clients, total = nil, 0
+		w.SInit = map[string]int{}
+		size := 16 + r.Intn(6)
+		for i := 0; i < size; i++ {
+			w.SInit[fmt.Sprintf("i%02d", i)] = 100 + i
+		}
+		keep := fmt.Sprintf("i%02d", size-1)
+		var del []Op
+		for i := 0; i < size-2; i++ {
+			del = append(del, Op{Kind: "Delete", Name: fmt.Sprintf("i%02d", i)})
+		}
+		var st []Op
+		for i := 0; i < 3+r.Intn(3); i++ {
+			st = append(st, Op{Kind: "Set", Name: keep, Val: 2000 + i}, Op{Kind: "Get", Name: keep})
+		}
+		w.Clients = append(w.Clients, del, st)
+		total = len(del) + len(st)
+		w.UY = r.Intn(2) == 0
+	}
 	wb, _ := json.Marshal(w)
 	density := []int{5, 15, 30, 50, 70}[r.Intn(5)]
 	c := &harness.Case{Prop: "C13", Seed: seed, Tier: tier, Workload: wb,
